@@ -371,25 +371,17 @@ func (m *AuditMessage) enrichData(data fieldMap) error {
 		if err := data.setSyscallName(); err != nil {
 			return err
 		}
-		if err := data.hexDecode("exe"); err != nil {
-			return err
-		}
+		data.hexDecode("exe")
 	case AUDIT_SOCKADDR:
 		if err := data.saddr(); err != nil {
 			return err
 		}
 	case AUDIT_PROCTITLE:
-		if err := data.hexDecode("proctitle"); err != nil {
-			return err
-		}
+		data.hexDecode("proctitle")
 	case AUDIT_USER_CMD:
-		if err := data.hexDecode("cmd"); err != nil {
-			return err
-		}
+		data.hexDecode("cmd")
 	case AUDIT_TTY, AUDIT_USER_TTY:
-		if err := data.hexDecode("data"); err != nil {
-			return err
-		}
+		data.hexDecode("data")
 	case AUDIT_EXECVE:
 		if err := data.execveArgs(); err != nil {
 			return err
